@@ -272,7 +272,76 @@ def k3(prog, ctx):
     ctx.extra["exhaustive"] = True
 
 
+def k4(prog, ctx):
+    """The reference window that check_sites_are_canonical indexes must cover every read handed to stage 2."""
+    AIO = "src/assignment_io.py"
+    # who indexes the window relative to all_read_region_start
+    users = []
+    for m, q, f in prog.all_functions():
+        for n in walk_no_nested(f):
+            if isinstance(n, ast.Subscript) and isinstance(n.value, ast.Attribute) and n.value.attr == "reference_region" \
+                    and isinstance(n.slice, ast.Slice):
+                users.append((m, q, n))
+    if not users:
+        raise AnalysisError("no user of gene_info.reference_region found")
+    f = prog.func(AIO, "NormalTmpFileAssignmentLoader.get_object")
+    # branch that deserialises a read assignment
+    des = [s for s in walk_no_nested(f) if isinstance(s, ast.Assign) and "ReadAssignment.deserialize(" in src(s.value)]
+    if len(des) != 1:
+        raise AnalysisError("NormalTmpFileAssignmentLoader.get_object: read deserialisation not found")
+    var = src(des[0].targets[0])
+    blk = des[0]._parent.body
+    after = [s for s in blk if s.lineno > des[0].lineno]
+    from ..engine.dataflow import local_defs
+    defs = local_defs(f)
+    calls = [c for s in after for c in ast.walk(s) if isinstance(c, ast.Call) and isinstance(c.func, ast.Attribute)
+             and c.func.attr == "set_reference_sequence"]
+    ok = False
+    why = "no call to set_reference_sequence after a read is loaded"
+    for c in calls:
+        if len(c.args) < 3:
+            continue
+        def resolve(e):
+            if isinstance(e, ast.Name) and e.id in defs and len(defs[e.id]) == 1:
+                return defs[e.id][0][1]
+            return e
+        a, b = resolve(c.args[0]), resolve(c.args[1])
+        ta, tb = src(a), src(b)
+        ok_a = ta.startswith("min(") and "all_read_region_start" in ta and "%s.exons[0][0]" % var in ta
+        ok_b = tb.startswith("max(") and "all_read_region_end" in tb and "%s.exons[-1][1]" % var in tb
+        if ok_a and ok_b and "chr_record" in src(c.args[2]):
+            ok = True
+        else:
+            why = "window set to (%s, %s)" % (ta, tb)
+    if not ok:
+        ctx.fail("K4", des[0], f._qualname, src(des[0]),
+                 "a read assignment is handed to the second stage without the gene's reference window being widened to the read's "
+                 "own span (%s); %d sites index reference_region relative to all_read_region_start, so introns outside the gene get "
+                 "wrong dinucleotides and a wrong Canonical flag" % (why, len(users)))
+    else:
+        ctx.ok("K4", "%s:%d" % (AIO, des[0].lineno), "loader widens the reference window to min/max with each loaded read's span "
+               "(%d indexing sites depend on it)" % len(users))
+    # set_reference_sequence must clear the memo and slice [start-1 : end]
+    srs = prog.func("src/gene_info.py", "GeneInfo.set_reference_sequence")
+    t = src(srs)
+    if "self.canonical_sites = {}" not in t or "chr_record[self.all_read_region_start - 1:self.all_read_region_end]" not in t:
+        ctx.fail("K4", srs, srs._qualname, "set_reference_sequence", "window setter no longer slices [start-1:end] and clears the canonical memo")
+    else:
+        ctx.ok("K4", "src/gene_info.py:%d" % srs.lineno, "window setter slices [start-1:end] and clears the canonical memo")
+    # indexing sites use offsets relative to the same window start
+    for m, q, n in users:
+        fn = enclosing_function(n)
+        offs = [d for d in walk_no_nested(fn) if isinstance(d, ast.Assign) and "all_read_region_start" in src(d.value)]
+        if not offs and "all_read_region_start" not in src(fn):
+            ctx.fail("K4", n, q, src(n)[:80], "reference_region is indexed without an offset relative to all_read_region_start")
+        else:
+            ctx.ok("K4", "%s:%d" % (m.rel, n.lineno), "%s indexes the window relative to all_read_region_start" % q)
+
+
 def run(prog, ctx):
+    ctx.rule("K4", "the stage-2 loader widens gene_info's reference window (set_reference_sequence(min(start, read start), max(end, "
+                   "read end), chr_record)) for every loaded read before handing it on; all users index relative to that window")
+    k4(prog, ctx)
     ctx.rule("K3", "CANONICAL_REV_SITES equals the reverse complement of CANONICAL_FWD_SITES, entry by entry (literal tables evaluated)")
     k3(prog, ctx)
     ctx.rule("K1", "for every lookup-or-compute memo (if k not in D: D[k] = v; ... D[k] read back), the data- and control-"
